@@ -32,7 +32,7 @@ def gen(rng, tier, shape=None):
         pending = [c for c in CATS if rng.random() < 0.8]
         return {"pending": pending, "cli": [c for c in CATS if rng.random() < 0.45], "env": None, "pyd": None, "pyd_tui": None,
                 "shortcut": None, "tty": False, "ci": None, "xdist": None, "answers": {c: False for c in CATS}, "skip": False,
-                "xfail": False, "dup": rng.random() < 0.3, "unknown": False, "empty_no": False,
+                "xfail": rng.random() < 0.3, "plain": True, "dup": rng.random() < 0.3, "unknown": False, "empty_no": False,
                 "split": rng.random() < 0.5,      # the pending categories are spread over two test files
                 "hasrepr": rng.random() < 0.35}   # the created value needs HasRepr (and its import)
     pending = [c for c in CATS if rng.random() < 0.75]
@@ -184,7 +184,7 @@ def plain_cli(case):
     """category flags given on the command line and nothing else that influences the session (scope of C19)"""
     if case["cli"] is None or case["shortcut"] or case["env"] is not None or case["pyd"] is not None or case["pyd_tui"] is not None:
         return None
-    if any(f not in CATS for f in case["cli"]) or case["xdist"] or case["ci"] or case["tty"] or case["skip"] or case["xfail"]:
+    if any(f not in CATS for f in case["cli"]) or case["xdist"] or case["ci"] or case["tty"] or case["skip"] or (case["xfail"] and not case.get("plain")):
         return None
     return list(case["cli"])
 
@@ -228,7 +228,7 @@ def run_impl(case):
     if split_cats(case)[1]:
         src_b = project_b(case)
         files["test_b.py"] = src_b
-    if case["xfail"]:
+    if case["xfail"] and not case.get("plain"):
         files["test_zz_module_xfail.py"] = MODULE_XFAIL
     if case.get("orphan"):
         files[ORPHAN] = b"orphan"
@@ -251,13 +251,13 @@ def run_impl(case):
         obs["applied"], obs["partial"] = ["unreadable:" + type(e).__name__], True
     xf_changed = False
     if case["xfail"]:
-        for c in case["pending"]:
+        for c in split_cats(case)[0]:
             body = after.split(f"def test_{c}_x():")[1].split("def test_")[0]
             if BODY[c][0] not in body:
                 xf_changed = True
         if "class TestMarked" in after and "def test_cls_x(self):\n        assert 5 == snapshot()" not in after:
             xf_changed = True
-        if r["files"].get("test_zz_module_xfail.py", b"").decode() != MODULE_XFAIL:
+        if not case.get("plain") and r["files"].get("test_zz_module_xfail.py", b"").decode() != MODULE_XFAIL:
             xf_changed = True
     obs["xfail_changed"] = xf_changed
     plain = plain_cli(case)
